@@ -16,6 +16,9 @@ Recs(q) == { Rec(q[i]) : i \in DOMAIN q }
 Flt(f) == [prop |-> f.prop, op |-> f.op, val |-> IF f.op = "in" THEN ToSet(f.val) ELSE f.val]
 Flts(q) == { Flt(q[i]) : i \in DOMAIN q }
 Rej(e, c) == PrintT(<<"REJECT", l, e.op, c>>)
+\* the same, naming the types of the objects that are wrongly present or absent (to tell causes apart)
+Wrong(A, X) == { o.type : o \in (A \ X) \cup (X \ A) }
+RejW(e, c, A, X) == PrintT(<<"REJECT", l, e.op, c, Wrong(A, X)>>)
 NoDup(q) == \A i, j \in DOMAIN q : i # j => <<q[i].id, q[i].ver>> # <<q[j].id, q[j].ver>>
 
 TraceInit == l = 1 /\ added = <<>> /\ mem = {} /\ fs = {} /\ last = [op |-> "none"]
@@ -28,19 +31,19 @@ TraceNext ==
      /\ IF e.op = "get" THEN
            (IF A \notin GetAnswers(S, e.id, F) THEN Rej(e, IF F = {} THEN "C11:get_not_newest_version" ELSE "C12:get_with_filters") ELSE TRUE)
         ELSE IF e.op = "all_versions" THEN
-           (IF A # Query(AllVersions(S, e.id), F) THEN Rej(e, IF F = {} THEN "C11:all_versions_not_every_version_added" ELSE "C12:all_versions_with_filters") ELSE TRUE)
+           (IF A # Query(AllVersions(S, e.id), F) THEN RejW(e, IF F = {} THEN "C11:all_versions_not_every_version_added" ELSE "C12:all_versions_with_filters", A, Query(AllVersions(S, e.id), F)) ELSE TRUE)
         ELSE IF e.op = "query" THEN
-           (IF A # Query(S, F) THEN Rej(e, IF A \subseteq Query(S, F) THEN "C12:query_misses_matching_objects" ELSE "C12:query_returns_non_matching_objects") ELSE TRUE)
+           (IF A # Query(S, F) THEN RejW(e, IF A \subseteq Query(S, F) THEN "C12:query_misses_matching_objects" ELSE "C12:query_returns_non_matching_objects", A, Query(S, F)) ELSE TRUE)
         ELSE IF e.op = "cget" THEN
            (IF A \notin GetAnswers(S, e.id, F) THEN Rej(e, "C18:composite_get_not_newest_of_any_member") ELSE TRUE)
         ELSE IF e.op = "call_versions" THEN
-           (IF A # Query(AllVersions(S, e.id), F) THEN Rej(e, "C18:composite_all_versions_not_union") ELSE TRUE)
+           (IF A # Query(AllVersions(S, e.id), F) THEN RejW(e, "C18:composite_all_versions_not_union", A, Query(AllVersions(S, e.id), F)) ELSE TRUE)
         ELSE IF e.op = "cquery" THEN
-           (IF A # Query(S, F) THEN Rej(e, "C18:composite_query_not_union") ELSE TRUE)
+           (IF A # Query(S, F) THEN RejW(e, "C18:composite_query_not_union", A, Query(S, F)) ELSE TRUE)
         ELSE IF e.op = "relationships" THEN
-           (IF A # Rels(S, e.id, e.nav.rtype, e.nav.src_only, e.nav.tgt_only) THEN Rej(e, "C18:relationships_not_as_scan") ELSE TRUE)
+           (IF A # Rels(S, e.id, e.nav.rtype, e.nav.src_only, e.nav.tgt_only) THEN RejW(e, "C18:relationships_not_as_scan", A, Rels(S, e.id, e.nav.rtype, e.nav.src_only, e.nav.tgt_only)) ELSE TRUE)
         ELSE IF e.op = "related_to" THEN
-           (IF A # RelatedTo(S, e.id, e.nav.rtype, e.nav.src_only, e.nav.tgt_only, F) THEN Rej(e, "C18:related_to_not_as_scan") ELSE TRUE)
+           (IF A # RelatedTo(S, e.id, e.nav.rtype, e.nav.src_only, e.nav.tgt_only, F) THEN RejW(e, "C18:related_to_not_as_scan", A, RelatedTo(S, e.id, e.nav.rtype, e.nav.src_only, e.nav.tgt_only, F)) ELSE TRUE)
         ELSE IF e.op = "creator_of" THEN
            (IF A # CreatorOf(S, Rec(e.obj)) THEN Rej(e, "C18:creator_of_not_as_scan") ELSE TRUE)
         ELSE TRUE
